@@ -1,7 +1,13 @@
 (* C09 — proofs about the end-of-stream decision logic (Conc/TlsEof.v), the pump (Conc/TlsPump.v) and the ideal
    record layer (Conc/IdealTls.v). *)
 From Coq Require Import ZArith List Bool Lia ZifyBool.
-From EN Require Import Lib.Bytes Conc.TlsBase Conc.TlsPump Conc.TlsEof Conc.IdealTls Gen.ParamsC09 Proofs.Ideal_proofs.
+From EN Require Import Lib.Bytes Conc.TlsBase Conc.TlsPump Conc.TlsEof Conc.IdealTls Gen.ParamsC09 Gen.ParamsC08 Proofs.Ideal_proofs.
+(* the proofs must hold whatever the regenerated flag says *)
+Opaque recheck_after_recv_lock.
+Ltac go_recv H sn :=
+  unfold go in H; destruct (recv_lock _) eqn:?L; [discriminate |];
+  destruct (recheck_after_recv_lock && negb (Nat.eqb (feeds _) sn)).
+
 
 (* ------------------------------------------------------------------ decision tables (finite case analysis) *)
 
@@ -50,10 +56,10 @@ Qed.
 Lemma go_end : forall m s p s' r a, go m s p = Some (s', PEnd r, a) -> exists v, r = ROk v.
 Proof.
   intros m s p s' r a H. unfold go in H.
-  destruct p as [ | k | k | | | r0]; try discriminate.
+  destruct p as [ | k | k | sn | | r0]; try discriminate.
   - destruct (send_lock s); try discriminate.
     destruct k as [ | | v]; destruct (wbio s) as [| w0 w]; cbn in H; try (inversion H; subst; eauto; fail).
-  - destruct (recv_lock s); inversion H.
+  - fold (go m s (PRecvWait sn)) in H. go_recv H sn; [unfold pcall in H; destruct m; try destruct (deque s); inversion H | inversion H].
 Qed.
 
 Lemma settle_n_end_ssl : forall fuel m s p s' e a, settle_n fuel m s p = (s', PEnd (RSsl e), a) -> p = PEnd (RSsl e).
@@ -73,7 +79,7 @@ Lemma step_end_ssl : forall m b s p l s' e a,
   step m b s p l = Some (s', PEnd (RSsl e), a) -> exists x, l = LSsl x /\ a_out x = SErr e.
 Proof.
   intros m b s p l s' e a H.
-  destruct p as [ | k | k | | | r0]; destruct l as [x | | t]; cbv beta iota delta [step] in H; try discriminate;
+  destruct p as [ | k | k | sn | | r0]; destruct l as [x | | t]; cbv beta iota delta [step] in H; try discriminate;
     try (apply go_end in H; destruct H as [v Hv]; discriminate).
   - (* PCall, LSsl *)
     destruct (negb _); [inversion H |].
@@ -112,7 +118,7 @@ Lemma retry_ssl_error_from_oracle : forall m b answers s p s' e acts rest,
 Proof.
   intros m b answers. induction answers as [| a answers IH]; intros s p s' e acts rest H.
   - destruct p; cbn in H; inversion H; subst; auto.
-  - destruct p as [ | k | k | | | r].
+  - destruct p as [ | k | k | sn | | r].
     6: { cbn in H. inversion H; subst; auto. }
     all: rewrite retry_cons in H by (intros r; discriminate);
          destruct (step _ _ _ _ _) as [[[s1 p1] a1] |] eqn:St; [| inversion H];
@@ -188,7 +194,7 @@ Proof.
             step MUnwrap 0 (sh st) PCall (LSsl a) = Some (set_wbio (sh st) w, PFlush k, [])).
   { destruct Hout as [[v Hv] | Hwr].
     - exists (KRet v). split; [exact I |]. unfold step. rewrite Hm, Harg, Hv, <- Ew. reflexivity.
-    - exists KRead. split; [exact I |]. unfold step. rewrite Hm, Harg, Hwr, <- Ew. reflexivity. }
+    - exists (KRead (feeds (sh st))). split; [exact I |]. unfold step. rewrite Hm, Harg, Hwr, <- Ew. reflexivity. }
   destruct Hstep as [k [Hk Hst]]. rewrite Hst, (Hgo k Hk) in H.
   destruct (retry MUnwrap 0 _ (PSending k) answers) as [[[s3 r] a3] rest3].
   cbn [app] in H.
